@@ -85,6 +85,13 @@ def classify_known(kind, payload, kf):
 def replay_known(kf):
     out = []
     for e in kf.get("open", []):
+        if e.get("id") == "D22":
+            for w in (e["witness"] if isinstance(e["witness"], list) else [e["witness"]]):
+                impl = L.run_lines(L.HARNESS, [w])[0]
+                p = vsock_common.pred_builder("c04_vsock_ack_ok")(w, impl)
+                if p and L.run_lines(L.MODEL, [p])[0] != "OK" and _in_class("c04_d22_class", w, impl):
+                    out.append("KNOWN-FINDING: property=C04 id=D22 still reproduces on the real code: `%s` (ACK number "
+                               "overstates after the peer's FIN: data numbered beyond the FIN was held)" % w)
         if e.get("id") != "D19":
             continue
         for w in (e["witness"] if isinstance(e["witness"], list) else [e["witness"]]):
@@ -95,7 +102,7 @@ def replay_known(kf):
     return out
 
 
-_VS = vsock_common.component("c04_vsock_ack_ok+c04_consumed_honest_ok", name="vsock_ack")
+_VS = vsock_common.component("c04_vsock_ack_guarded+c04_consumed_honest_guarded", name="vsock_ack")
 _VS["gen"] = _vsock_gen
 
 COMPONENTS = [_VS, {"name": "rx", "keep": 2, "gen": rxgen.gen, "gen_around": gen_around, "nontrivial": nontrivial,
